@@ -3,6 +3,7 @@ From ASV Require Import Base.
 From ASV.C01 Require Model.
 From ASV.C03 Require Model.
 From ASV.C04 Require Model.
+From ASV.C06 Require Model.
 From ASV.C07 Require Model.
 From ASV.C14 Require Model.
 From ASV.C15 Require Model.
@@ -11,6 +12,8 @@ From ASV.C13 Require Model.
 From ASV.C16 Require Model.
 From ASV.C20 Require Model.
 From ASV.C09 Require Model.
+From ASV.C18 Require Model.
+From ASV.C19 Require Model.
 
 Definition run (l : list Z) : list Z :=
   match l with
@@ -19,6 +22,7 @@ Definition run (l : list Z) : list Z :=
     | 1 => C01.Model.run_C01 fn payload
     | 3 => C03.Model.run_C03 fn payload
     | 4 => C04.Model.run_C04 fn payload
+    | 6 => C06.Model.run_C06 fn payload
     | 7 => C07.Model.run_C07 fn payload
     | 14 => C14.Model.run_C14 fn payload
     | 15 => C15.Model.run_C15 fn payload
@@ -27,6 +31,8 @@ Definition run (l : list Z) : list Z :=
     | 16 => C16.Model.run_C16 fn payload
     | 20 => C20.Model.run_C20 fn payload
     | 9 => C09.Model.run_C09 fn payload
+    | 18 => C18.Model.run_C18 fn payload
+    | 19 => C19.Model.run_C19 fn payload
     | _ => bad_input
     end
   | _ => bad_input
